@@ -204,6 +204,12 @@ func sourceNode(kind string, m *meta.Module, ep entryPoint, s *model.Tree) (node
 			return nodeutil.ReadJSON(s.ToJSON([]meta.Definition{lm}))
 		}
 		return nodeutil.ReadJSON(s.ToJSON(ep.defs(m)))
+	case "xml":
+		defs := ep.defs(m)
+		if epKind == "list" {
+			defs = []meta.Definition{ep.def(m).(*meta.List)}
+		}
+		return nodeutil.ReadXMLDoc(strings.NewReader("<data>" + xmlBody(defs, s) + "</data>"))
 	}
 	panic("unknown source kind " + kind)
 }
